@@ -1907,3 +1907,90 @@ func (c *Ctx) tokArgAt(v ssa.Value, rk string, rv int64) string {
 	}
 	return "?" + c.key(v, nil)
 }
+
+// LEX-MINUS (C05/C06/C09): whether '-' is a sign or the prohibit operator depends on the next rune only.
+func ruleLEXMINUS(c *Ctx, r *Report) {
+	const rule = "LEX-MINUS"
+	r.doc(rule, "on the dispatcher's paths for the rune '-', every condition other than the tests on the dispatched rune itself is a digit test on the one-rune look-ahead (or the end-of-input guard of that look-ahead): the decision does not scan further ahead, so what follows the number — a closing parenthesis, a suffix operator, another bracket — cannot turn a negative number into a prohibited term")
+	lr := c.lexPreamble(r, rule)
+	if lr == nil {
+		return
+	}
+	var disp *ssa.Function
+	for _, fs := range c.lexStores(lr) {
+		if fs.field == lr.StartF {
+			for _, s := range lr.States {
+				if s == fs.fn {
+					disp = s
+				}
+			}
+		}
+	}
+	if disp == nil {
+		r.bad(rule, "dispatcher", "-", "no state function sets start = pos (token start)")
+		return
+	}
+	rk := fnName(lr.Advance) + "($0)"
+	recv := "$0"
+	posK, inK := recv+"."+lr.PosF.Name(), recv+"."+lr.InputF.Name()
+	lookahead := map[string]bool{"unicode/utf8.DecodeRuneInString(" + inK + "[" + posK + ":])#0": true}
+	for _, f := range c.Funcs {
+		if fnPkgPath(f) != pkgLex || f.Parent() != nil || f == lr.Advance {
+			continue
+		}
+		rs := f.Signature.Results()
+		if rs.Len() == 1 && len(opParams(f)) == 0 && c.calls(f, lr.Advance) && c.calls(f, lr.Backup) {
+			if b, ok := rs.At(0).Type().Underlying().(*types.Basic); ok && b.Kind() == types.Int32 {
+				lookahead[fnName(f)+"($0)"] = true
+			}
+		}
+	}
+	paths, complete := c.lexPaths(lr, disp, 5000)
+	if !complete {
+		r.bad(rule, "paths", c.pos(disp.Pos()), "too many paths")
+		return
+	}
+	n, bad := 0, 0
+	for _, p := range paths {
+		feasible := true
+		for _, a := range p.Atoms {
+			if a.Subj != rk && a.Val != rk {
+				continue
+			}
+			if f, known := c.atomFalseAt(a, rk, int64('-')); known && f {
+				feasible = false
+			}
+			if a.Kind == "call" && a.Val == rk {
+				if b, ok := c.tablePredAt(a, int64('-')); ok && b != a.Pos {
+					feasible = false
+				}
+			}
+		}
+		if !feasible {
+			continue
+		}
+		for _, a := range p.Atoms {
+			if a.Subj == rk || a.Val == rk {
+				continue
+			}
+			n++
+			ok := false
+			switch {
+			case a.Kind == "call" && lookahead[a.Val] && (a.Subj == "unicode.IsDigit" || a.Fn != nil && inModule(a.Fn) && isBool(a.Fn.Signature.Results().At(0).Type()) && len(a.Fn.Params) == 1):
+				ok = true // a rune-class test of the look-ahead rune
+			case (a.Kind == "cmp" || a.Kind == "len") && (a.Subj == posK || a.Subj == inK) && (a.Val == "len("+inK+")" || a.Kind == "len"):
+				ok = true // the end-of-input guard
+			case a.Kind == "bool" && strings.HasSuffix(a.Subj, "."+lr.EOFF.Name()):
+				ok = true
+			}
+			if !ok {
+				bad++
+				r.bad(rule, "minus|"+a.String(), c.instrPos(p.Instrs[len(p.Instrs)-1]), fmt.Sprintf("whether '-' starts a negative number or is the prohibit operator depends on %s, which looks beyond the next rune: text after the number (a closing parenthesis, a ^ or ~) changes how the minus is read", a.String()))
+			}
+		}
+	}
+	if bad == 0 {
+		r.ok(rule, "minus", c.pos(disp.Pos()), fmt.Sprintf("%d conditions on the '-' paths, all on the dispatched rune or the one-rune look-ahead", n))
+	}
+	r.floor(rule, "look-ahead conditions on the '-' paths", n, 1)
+}
